@@ -345,6 +345,86 @@ def conn_worker(job):
     return acc
 
 
+def rekey_cases():
+    out = []
+    for lifetime in (50, 10 ** 9):
+        for initiator in ('client', 'server'):
+            for trust in ('file', 'callback'):
+                for waits in (1, 2):
+                    out.append((lifetime, initiator, trust, waits))
+    return out
+
+
+def rekey_run(lifetime, initiator, trust, waits):
+    """a host certificate that is valid at connect time and (lifetime=50) expires before the first
+    re-exchange, which happens 60 virtual seconds later: the certificate is presented again and must be
+    judged against the clock again -- the connection ends with a host key error instead of re-keying"""
+    ca = P.key('c16-ca')
+    subj = P.key('c16-subj')
+    loop = P.fresh(0)
+    try:
+        cert = ca.generate_host_certificate(subj, 'h', principals=['h.example'], valid_after=CONN_NOW - 10,
+                                            valid_before=CONN_NOW + lifetime)
+
+        class Cl(P.RecClient):
+            def validate_host_ca_key(self, host, addr, port, key):
+                return trust == 'callback'
+        holder = {}
+
+        def mk():
+            holder['o'] = Cl()
+            return holder['o']
+        kh = ('@cert-authority * ' + ca.export_public_key('openssh').decode()) if trust == 'file' else ''
+        so = dict(server_host_keys=[(subj, cert)])
+        co = dict(known_hosts=kh.encode(), host='h.example', client_factory=mk)
+        (co if initiator == 'client' else so)['rekey_seconds'] = 60
+        pair = P.Pair(loop, sopts=so, copts=co)
+        pair.handshake()
+        first = pair.c._session_id
+        kex0 = 0
+        for _ in range(waits):
+            # the time limit is looked at when a packet is sent: let 61 s pass, then make both sides talk
+            loop.advance(to=loop.time() + 61)
+            t = loop.create_task(pair.c.open_session('x', encoding=None))
+            loop.flush_all()
+            if t.done() and not t.cancelled():
+                t.exception()           # the harness's own probe: its outcome is judged through the connection
+        owner = holder.get('o')
+        lost = type(owner.lost_exc).__name__ if owner is not None and owner.lost else None
+        up = pair.c._transport is not None
+        rekeyed = any(c.label == 21 for c in pair.ct.writes[1:] if False) or sum(1 for c in pair.ct.writes if c.label == 21)
+        return {'up': up, 'lost': lost, 'newkeys_sent_by_client': rekeyed, 'exc': loop.unretrieved()}
+    finally:
+        P.done(loop)
+
+
+def rekey_worker(job):
+    acc = core.Acc()
+    for case in job:
+        lifetime, initiator, trust, waits = case
+        try:
+            obs = rekey_run(*case)
+        except Exception as exc:            # pylint: disable=broad-except
+            acc.violation('cert:connection-harness-error:rekey', repr(exc), {'kind': 'rekey', 'case': list(case)})
+            continue
+        acc.add(core.digest(('rekey', case, obs['up'], obs['lost'])), transitions=2,
+                sample={'certificate_lifetime_s': lifetime, 're-exchange_by': initiator, 'after_s': 60 * waits, 'connection_up': obs['up'],
+                        'client_error': obs['lost']} if lifetime == 50 and waits == 1 else None)
+        if lifetime == 50:
+            if obs['up'] or obs['lost'] not in ('HostKeyNotVerifiable', 'KeyExchangeFailed'):
+                acc.violation('cert:expired-certificate-accepted-at-re-exchange:%s:%s' % (initiator, trust),
+                              'host certificate expired %d s before the re-exchange started by the %s; connection up=%s, client saw %s, NEWKEYS sent by client: %d'
+                              % (60 * waits - 50, initiator, obs['up'], obs['lost'], obs['newkeys_sent_by_client']), {'kind': 'rekey', 'case': list(case)})
+        else:
+            if not obs['up'] or obs['newkeys_sent_by_client'] < 2:
+                acc.violation('cert:valid-certificate-rejected-at-re-exchange:%s:%s' % (initiator, trust),
+                              'connection up=%s, client saw %s, NEWKEYS sent by client: %d' % (obs['up'], obs['lost'], obs['newkeys_sent_by_client']),
+                              {'kind': 'rekey', 'case': list(case)})
+        if obs['exc']:
+            acc.violation('cert:loop-exception:rekey', repr(obs['exc'][0].get('exception'))[:200], {'kind': 'rekey', 'case': list(case)})
+    return acc
+
+
 def cert_edit_worker(job):
     ca_alg, kw, ctype, tier = job
     acc = core.Acc()
@@ -633,6 +713,8 @@ def main(tier, seed):
     acc.merge(keygen_cross())
     cc = conn_cases()
     acc.merge(core.pmap(conn_worker, [cc[i::32] for i in range(32)]))
+    P.install_wire_labels()
+    acc.merge(core.pmap(rekey_worker, [rekey_cases()[i::8] for i in range(8)]))
     acc.merge(core.pmap(sshsig_worker, [tier]))
     shutil.rmtree(SCRATCH, ignore_errors=True)
     rule = ('signatures: 7 key types x all their signature algorithms x 3 messages x every single-byte edit of the '
@@ -640,7 +722,8 @@ def main(tier, seed):
             'another key; certificates: every single-byte edit of user and host certificates from 7 CA key types; '
             'acceptance grid (%d hand-built certificates: type x use x validity window x now x principals x wanted '
             'x critical/extension sets); the same kind of certificate presented on a live connection as host or user '
-            'credential with the CA trusted by file, by application callback or not at all; ssh-keygen -s / -L; SSHSIG: 13 allowed-signers forms x 6 clock values x 3 '
+            'credential with the CA trusted by file, by application callback or not at all; a host certificate that '
+            'expires between connect and the first re-exchange (started by either side); ssh-keygen -s / -L; SSHSIG: 13 allowed-signers forms x 6 clock values x 3 '
             'principals, binding to message/namespace/CA, every single-byte edit of raw and armoured signatures, '
             'ssh-keygen -Y sign/verify' % len(grid))
     return core.finish(PROP, tier, seed, 'exploration', acc, t0, rule,
@@ -667,6 +750,9 @@ def replay(rep):
         c = r['case']
         opt = (tuple((a.encode(), bytes.fromhex(b)) for a, b in c[5][0]), tuple((a.encode(), bytes.fromhex(b)) for a, b in c[5][1]))
         acc = conn_worker([(c[0], c[1], c[2], c[3], tuple(c[4]), opt, c[6])])
+    elif k == 'rekey':
+        P.install_wire_labels()
+        acc = rekey_worker([tuple(r['case'])])
     elif k == 'keygen':
         acc = keygen_cross()
     else:
